@@ -7,16 +7,23 @@ import (
 	"math"
 	"strconv"
 	"strings"
+	"sync"
 
 	logging "gopkg.in/op/go-logging.v1"
 )
 
 var ExpressionParser ExpressionParserInterface
 
+var initExpressionParserOnce sync.Once
+
+// InitExpressionParser creates the shared expression parser once; it is safe to
+// call from several goroutines (every NewAllAtOnceEvaluator call does).
 func InitExpressionParser() {
-	if ExpressionParser == nil {
-		ExpressionParser = newExpressionParser()
-	}
+	initExpressionParserOnce.Do(func() {
+		if ExpressionParser == nil {
+			ExpressionParser = newExpressionParser()
+		}
+	})
 }
 
 var log = logging.MustGetLogger("yq-lib")
